@@ -802,6 +802,20 @@ class VN:
                 if decided:
                     return tuple(vals)
         for g in e.generators:
+            if isinstance(g.iter, ast.Call) and isinstance(g.iter.func, ast.Name) and g.iter.func.id == "enumerate" and len(g.iter.args) == 1 and not g.iter.keywords \
+                    and isinstance(g.target, (ast.Tuple, ast.List)) and len(g.target.elts) == 2 and all(isinstance(t_, ast.Name) for t_ in g.target.elts):
+                xs = self.ev(g.iter.args[0], env2)
+                if isinstance(xs, T.Poly):
+                    # `for i, x in enumerate(xs)` is `for i in range(len(xs))` with x = xs[i]
+                    idx = T.sym("@%d" % k, real=True)
+                    env2.env[g.target.elts[0].id] = idx
+                    env2.env[g.target.elts[1].id] = T.app("getitem", xs, idx)
+                    k += 1
+                    n_ = seq_len(xs)
+                    iters.append(T.app("range", n_ if n_ is not None else T.app("len", xs, real=True), real=True))
+                    for c in g.ifs:
+                        iters.append(T.app("if", self._as_term(self.ev(c, env2))))
+                    continue
             it = self.ev(g.iter, env2)
             # zip(a, b) -> parallel iteration
             targets = []
@@ -1148,6 +1162,9 @@ class VN:
         env = {}
         back = {}
         for p, node in b.items():
+            if isinstance(node, list) and p.startswith("*") and not p.startswith("**"):
+                env[p[1:]] = tuple(self.ev(x_, st) for x_ in node)     # f(a, b) bound to `*args`: the tuple of the arguments
+                continue
             if isinstance(node, (list, dict)):
                 raise Unrecognised("inline of varargs call", call)
             env[p] = self.ev(node, st)
@@ -1361,6 +1378,12 @@ class VN:
             return a0
         if short == "column_stack" and is_tuple(a0):
             return a0
+        if short in ("max", "min") and args and not kw and not full.startswith("numpy"):
+            # max / min of known numbers is that number (sizes and ranks of concrete shapes)
+            cand = list(args[0]) if (len(args) == 1 and is_tuple(args[0])) else list(args)
+            frs = [x.as_fraction() if isinstance(x, P) else None for x in cand]
+            if cand and all(fr is not None for fr in frs):
+                return T.const(max(frs) if short == "max" else min(frs))
         if short in ("max", "min", "maximum", "minimum") and args:
             name = "max" if short.startswith("max") else "min"
             if len(args) == 1 and not kw:
@@ -1599,6 +1622,9 @@ class VN:
         env = {}
         back = {}
         for p, node in b.items():
+            if isinstance(node, list) and p.startswith("*") and not p.startswith("**"):
+                env[p[1:]] = tuple(self.ev(x_, st) for x_ in node)     # f(a, b) bound to `*args`: the tuple of the arguments
+                continue
             if isinstance(node, (list, dict)):
                 raise Unrecognised("inline of varargs call", call)
             env[p] = self.ev(node, st)
